@@ -10,7 +10,7 @@
    Proofs/C12Stats.v (ex_wald). *)
 From Coq Require Import List Reals Permutation.
 From PG Require Import Base.Ops Base.Vec Model.BSpline Model.Columns Model.Pirls Model.Invariance Proofs.VecR Proofs.C04 Proofs.C01
-  Proofs.C12Lin Proofs.C12Perm Proofs.C12Affine Proofs.C12Stats Proofs.C12Main Proofs.C16 Gen.Dists Gen.Stats.
+  Proofs.C12Lin Proofs.C12Perm Proofs.C12Traj Proofs.C12Affine Proofs.C12Stats Proofs.C12Main Proofs.C16 Gen.Dists Gen.Stats.
 Import ListNotations.
 Open Scope R_scope.
 
@@ -65,11 +65,31 @@ Theorem C12_weights_replication_same_fit : forall m (rk : list (@trow R * nat)) 
   b = b' /\ edof_rows Rfops sol (weighted Rfops rk) = edof_rows Rfops sol' (replicated rk).
 Proof. exact replication_unique_fit. Qed.
 Print Assumptions C12_weights_replication_same_fit.
-(* _partial (both theorems above and C12_permutation): they are statements about ONE step.  For LinearGAM the step does not
-   depend on the entering coefficients, so it is the fit.  For the other families W2 and z are functions of the entering
-   coefficients row by row, so equal steps give equal PIRLS iterates by induction only if both runs start from the same
-   coefficients: pyGAM's initial estimate is itself a (row-sum based) least-squares solve, but that chain is not modelled
-   here; the harness compares converged fits of all six classes instead. *)
+(* From one step to whole PIRLS runs (every family / link / expectile: the rows (B_i, W2_i, z_i) are rebuilt from the entering
+   coefficients by ANY row-wise rule mk; traj = list of iterates, each solving the step built from the previous one).
+   Permuted data: the same iterates from the same start.  (pyGAM's start, _initial_estimate, is itself the solution of a
+   row-sum normal equation, so C12_permutation_same_fit applies to it as well.) *)
+Theorem C12_permutation_every_iterate : forall (D : Type) (mk : list R -> D -> @trow R) m Ptot data data' bs bs', Permutation data data' ->
+  (forall b, length b = m -> wellformed m (map (mk b) data) Ptot) ->
+  traj m Ptot (fun b => map (mk b) data) bs -> traj m Ptot (fun b => map (mk b) data') bs' ->
+  length bs = length bs' -> hd [] bs = hd [] bs' -> bs = bs'.
+Proof. exact @perm_trajectory. Qed.
+Print Assumptions C12_permutation_every_iterate.
+(* Replication with pyGAM's working rows (mkrow: W2 = asym w / (g'^2 V), z = lp + (y - mu) g', mu = ginv(B_i . b) for any inverse
+   link ginv): a data row (B_i, k w_i, y_i) against k copies of (B_i, w_i, y_i): every step has the same solutions (hence the same
+   fixed points = converged fits), and the runs coincide when started from the same coefficients.
+   _partial: pyGAM's starting value (_initial_estimate) ignores the sample weights, so the weighted and the replicated run do
+   NOT start from the same coefficients; only their fixed points coincide (first conjunct).  That PIRLS converges to the fixed
+   point is not proved (DESIGN C01 Partial); the harness compares converged fits. *)
+Theorem C12_weights_replication_every_iterate_partial : forall ginv l d tau L m Ptot (dk : list ((list R * R * R) * nat)),
+  Forall (fun p : (list R * R * R) * nat => length (fst (fst (fst p))) = m) dk ->
+  (forall b b1, rows_step Rfops m (map (mkrow ginv l d tau L b) (wdata dk)) Ptot b1 <-> rows_step Rfops m (map (mkrow ginv l d tau L b) (rdata dk)) Ptot b1) /\
+  ((forall b, length b = m -> wellformed m (map (mkrow ginv l d tau L b) (wdata dk)) Ptot) ->
+   forall bs bs', traj m Ptot (fun b => map (mkrow ginv l d tau L b) (wdata dk)) bs -> traj m Ptot (fun b => map (mkrow ginv l d tau L b) (rdata dk)) bs' ->
+   length bs = length bs' -> hd [] bs = hd [] bs' -> bs = bs').
+Proof. exact (fun ginv l d tau L m Ptot dk HF => conj (fun b b1 => repl_pirls_step ginv l d tau L m Ptot dk b b1 HF)
+                                                     (fun WF bs bs' => repl_trajectory ginv l d tau L m Ptot dk bs bs' HF WF)). Qed.
+Print Assumptions C12_weights_replication_every_iterate_partial.
 
 (* Feature units.  Default edge knots are (min, max) of the training column, which move with the data under x -> a x + b,
    a > 0; so compiling a spline term on the mapped column gives the term with mapped knots; a non-constant column has
